@@ -38,3 +38,107 @@ pub mod kernels {
     pub use crate::decomposition::*;
     pub use crate::operations::*;
 }
+
+/// The 0-1 programme handed to the MIP solver by the two-level optimizers, recorded at the call site just
+/// before `solve()` (feature `optim-mip` only). Coefficients are printed in half units (times two), variables
+/// by creation order.
+#[cfg(feature = "optim-mip")]
+pub mod mip {
+    use crate::sop::{Cube, Ecube};
+    use good_lp::{Constraint, Expression, IntoAffineExpression, ProblemVariables, Variable};
+    use std::cell::RefCell;
+    use std::collections::HashMap;
+
+    thread_local! {
+        static LAST: RefCell<Option<String>> = const { RefCell::new(None) };
+    }
+
+    fn half_units(x: f64) -> i64 {
+        let d = x * 2.0;
+        assert!(d.fract() == 0.0 && d.abs() < 1e15);
+        d as i64
+    }
+
+    fn lin(index: &HashMap<Variable, usize>, e: &Expression) -> String {
+        let mut terms: Vec<(usize, i64)> = e
+            .linear_coefficients()
+            .map(|(v, c)| (index[&v], half_units(c)))
+            .filter(|(_, c)| *c != 0)
+            .collect();
+        terms.sort();
+        let body: Vec<String> = terms.iter().map(|(v, c)| format!("{}*{}", c, v)).collect();
+        format!("{}+{}", body.join(","), half_units(e.constant()))
+    }
+
+    fn cube_masks(c: &Cube) -> (u32, u32) {
+        let mut p = 0u32;
+        for v in c.pos_vars() {
+            p |= 1 << v;
+        }
+        let mut q = 0u32;
+        for v in c.neg_vars() {
+            q |= 1 << v;
+        }
+        (p, q)
+    }
+
+    /// Record the programme (called from `SopModeler::solve` / `EsopModeler::solve`)
+    pub fn record(
+        vars: &ProblemVariables,
+        constraints: &[Constraint],
+        objective: &Expression,
+        cubes: &[Cube],
+        ecubes: &[Ecube],
+    ) {
+        let mut index = HashMap::new();
+        let mut kinds = String::new();
+        for (i, (v, def)) in vars.iter_variables_with_def().enumerate() {
+            index.insert(v, i);
+            let k = if def.is_integer() && def.get_min() == 0.0 && def.get_max() == 1.0 {
+                'B'
+            } else if def.is_integer() && def.get_min() == f64::NEG_INFINITY && def.get_max() == f64::INFINITY {
+                'I'
+            } else if !def.is_integer() && def.get_min() == 0.0 && def.get_max() == f64::INFINITY {
+                'N'
+            } else {
+                '?'
+            };
+            kinds.push(k);
+        }
+        let cs: Vec<String> = constraints
+            .iter()
+            .map(|c| format!("{}{}", lin(&index, c.expression()), if c.is_equality() { "=" } else { "<" }))
+            .collect();
+        let cu: Vec<String> = cubes
+            .iter()
+            .map(|c| {
+                let (p, q) = cube_masks(c);
+                format!("{:x}/{:x}", p, q)
+            })
+            .collect();
+        let ec: Vec<String> = ecubes
+            .iter()
+            .map(|e| {
+                let mut v = 0u32;
+                for x in e.vars() {
+                    v |= 1 << x;
+                }
+                format!("{:x}/{}", v, if e.value(0) { 1 } else { 0 })
+            })
+            .collect();
+        let dump = format!(
+            "K={}|C={}|O={}|CU={}|EC={}",
+            kinds,
+            cs.join(";"),
+            lin(&index, objective),
+            cu.join(";"),
+            ec.join(";")
+        );
+        LAST.with(|l| *l.borrow_mut() = Some(dump));
+    }
+
+    /// Take the programme recorded by the last optimizer call on this thread
+    pub fn take() -> Option<String> {
+        LAST.with(|l| l.borrow_mut().take())
+    }
+}
